@@ -118,7 +118,9 @@ pub fn compare_outcome(r: &RefOutcome, o: &Outcome, cfg: &DiffCfg) -> DiffVerdic
         }
     }
     let yout: Vec<String> = sort_segments(o.out.iter().map(|s| yrun::normalise_addr(s)).collect());
-    let rout = sort_segments(r.out.clone());
+    // the same normalisation on both sides, so that data which merely looks like an address
+    // cannot make them differ
+    let rout = sort_segments(r.out.iter().map(|s| yrun::normalise_addr(s)).collect());
     let r_out = &rout;
     let n = r_out.len().min(yout.len());
     for i in 0..n {
